@@ -82,16 +82,19 @@ Definition command_names : list (list N) := [USER; PASS; TYPE_; PASV; SIZE; REST
 (* ------------------------------------------------------------------ *)
 (* Reply.parse                                                         *)
 (* ------------------------------------------------------------------ *)
+(* list reversal in linear time (List.rev is quadratic; lines can be 64 KiB) *)
+Definition frev (l : list N) : list N := rev_append l [].
+
 (* bytes.splitlines(False): boundaries are LF, CR and CRLF only *)
 Fixpoint splitlines_aux (cur : list N) (l : list N) : list (list N) :=
   match l with
-  | [] => match cur with [] => [] | _ :: _ => [rev cur] end
+  | [] => match cur with [] => [] | _ :: _ => [frev cur] end
   | x :: r =>
-      if x =? 10 then rev cur :: splitlines_aux [] r
+      if x =? 10 then frev cur :: splitlines_aux [] r
       else if x =? 13 then
         match r with
-        | y :: r' => if y =? 10 then rev cur :: splitlines_aux [] r' else rev cur :: splitlines_aux [] r
-        | [] => [rev cur]
+        | y :: r' => if y =? 10 then frev cur :: splitlines_aux [] r' else frev cur :: splitlines_aux [] r
+        | [] => [frev cur]
         end
       else splitlines_aux (x :: cur) r
   end.
@@ -171,7 +174,7 @@ Inductive rr :=
 | RRErr (e : err).
 
 Definition ends_with_lf (line : list N) : bool :=
-  match rev line with x :: _ => x =? 10 | [] => false end.
+  match frev line with x :: _ => x =? 10 | [] => false end.
 
 Definition text_of (st : rstate) : list N := match r_text st with Some t => t | None => [] end.
 
